@@ -245,6 +245,10 @@ def run(rep, tier, seed, only=None):
         rep.stubs.add("remove_trend_norm_mean -> capture stub (C18)")
         rep.stubs.add("np.random.RandomState -> ghost index source (T5)")
         contract.standard_run(rep, "C09", MODULES, tier, seed, only)
+    if tier == "thorough" and not only:
+        # size-generic re-indexing lemma (the part enumerated for n <= 4 in layer A): Lean/Mathlib
+        from gsvc.leancheck import add_lean_obligations
+        add_lean_obligations(rep, "C09", ["pair_sum_perm"])
     rep.trust("induction schema over the upper bound of recursive spec sums (contracts/c09_lemmas.py): "
               "[n <= lo => P(n)] and [n > lo, P(n-1) => P(n)] give P(n) for all integers n")
     rep.trust("polynomial certificates: lhs - rhs == sum_k c_k (p_k - q_k) is proved as an identity by z3; "
